@@ -365,6 +365,9 @@ def run(chk):
     chk.count("emu_ev:sequences", len(el))
 
     # ---- B + C: the real tools on mutated traces, ASan+UBSan build, heap-buffer hook
+    # (the build cache is shared and pruned by other checks: make sure both builds are still there)
+    build = common.repo_build("hook")
+    asan = common.repo_build("asan")
     wd = trace.workdir()
     try:
         jobs = []
